@@ -290,7 +290,6 @@ func (p *c06) Run(tier string, seed int64, idx int) core.CaseResult {
 		res.Ev("rounds_with_oracle_after_the_concurrent_phase", 1)
 	}
 	// concurrent round
-	xpath.VerifResetPlugins()
 	xpath.VerifSetYield(idx % 3)
 	for _, mi := range hot {
 		atomic.StoreInt32(&c06Machines[mi].maxSeen, 0)
@@ -307,6 +306,8 @@ func (p *c06) Run(tier string, seed int64, idx int) core.CaseResult {
 		v, _ := out.ScalarVal()
 		return fmt.Sprintf("err=%q panic=%q kind=%s val=%s str=%q", out.Err, out.Panic, out.Kind, v, out.Str)
 	}
+	// (re-armed after the last compilation on this goroutine: the lazy plugin load is to happen in the concurrent phase)
+	xpath.VerifResetPlugins()
 	for g := 0; g < G; g++ {
 		wg.Add(1)
 		go func(g int) {
